@@ -354,6 +354,21 @@ class ProcessStateGuard:
         return False
 
 
+def _ignored_ids(root: Path, proj: dict) -> list:
+    """path ids the ignore patterns on disk match - computed WITHOUT any memo table (the expression of
+    IgnoreDirectiveParser.is_ignored, whose shape the generated layer checks: any(matches_pattern(relative path, p) for p in
+    the loaded patterns)), so that a stale or shared cache in the implementation cannot leak into the model's parameters;
+    falls back to a newly built parser when the helpers are gone"""
+    try:
+        import src.linter_config.ignore as ig
+        from src.linter_config.pattern_utils import matches_pattern
+        pats = ig._load_repo_ignores(root)
+        return [i for i, p in enumerate(proj["paths"]) if any(matches_pattern(p, pat) for pat in pats)]
+    except (ImportError, AttributeError):
+        lin = fresh_linter(root)
+        return [i for i, p in enumerate(proj["paths"]) if lin.orchestrator.ignore_parser.is_ignored(root / p)]
+
+
 def path_flags(root: Path, proj: dict) -> tuple[list[int], list]:
     """hard-excluded path ids, and for every version of the ignore file (key 0: no file, cid + 1: that content) the
     path ids its patterns match - asked from the implementation's own predicates on fresh parsers (C14 is about their
@@ -375,10 +390,7 @@ def path_flags(root: Path, proj: dict) -> tuple[list[int], list]:
                     ig_file.unlink()
             else:
                 ig_file.write_text(content_text(proj, cid))
-            lin = fresh_linter(root)
-            table.append([0 if cid is None else cid + 1,
-                          [i for i, p in enumerate(proj["paths"]) if i not in hard and lin.orchestrator.ignore_parser.is_ignored(root / p)]])
-            del lin
+            table.append([0 if cid is None else cid + 1, [i for i in _ignored_ids(root, proj) if i not in hard]])
         if before is None:
             if ig_file.exists():
                 ig_file.unlink()
